@@ -8,7 +8,10 @@ check of the property it was written against and of the properties sharing its f
 --all-props), restores /repo and the evidence.  Every check must exit 0; a check that raises an alarm here is wrong
 (or the rewrite is not harmless after all - then it belongs under seeded/, not here).
 """
-import glob, json, os, subprocess, sys, time
+import glob, json, os, signal, subprocess, sys, time
+# a run that is terminated (session end) must still restore /repo: turn the signals into an exception so `finally` runs
+for _sig in (signal.SIGTERM, signal.SIGHUP, signal.SIGINT):
+    signal.signal(_sig, lambda n, f: (_ for _ in ()).throw(KeyboardInterrupt(f"signal {n}")))
 ROOT = os.path.dirname(os.path.dirname(os.path.abspath(__file__)))
 ALL = [f"C{i:02d}" for i in range(1, 20)]
 # properties served by the same harness families
@@ -58,4 +61,6 @@ for d in sorted(glob.glob(os.path.join(ROOT, "harmless", pref + "*"))):
                "alarms": bad, "check_results": results}, open(os.path.join(d, "meta.json"), "w"), indent=1)
     print(hid, "QUIET" if not bad else "ALARM " + str(bad), flush=True)
     if bad: alarms.append(hid)
+rc, out = sh("git status --porcelain", "/repo")
+assert out.strip() == "", "/repo was left dirty: " + out
 print("alarms:", alarms)
